@@ -204,3 +204,16 @@ func CheckValidFailureCode(c FailureCode) error {
 	}
 	return nil
 }
+
+// BoundedCapacity returns the capacity to allocate up front for a collection whose element count was read from the wire:
+// the count itself when it is small, a fixed bound otherwise (the collection then grows as elements actually arrive), so
+// that a few bytes declaring a huge count cannot make a decoder allocate gigabytes.
+func BoundedCapacity(count int32) int {
+	const maxInitialCapacity = 1024
+	if count < 0 {
+		return 0
+	} else if count > maxInitialCapacity {
+		return maxInitialCapacity
+	}
+	return int(count)
+}
